@@ -149,6 +149,7 @@ func c12ReadBack(r *eng.Run, compressed, msg []byte, what string) {
 	if src.SegMode == SegBoundary {
 		src.SegMode = SegTiny
 	}
+	src.EOFWithData = r.T.Chance(sim.LFault, 1, 3) // last bytes arrive together with io.EOF
 	var rd io.Reader = src
 	byteReader := r.T.Bool(sim.LCfg)
 	if byteReader {
@@ -306,7 +307,8 @@ func c12Helpers(r *eng.Run) {
 	}
 }
 
-// faultyCompressor wraps flate and misbehaves at Flush.
+// faultyCompressor wraps flate and misbehaves at Flush. It deliberately has
+// no Close method: the Compressor interface only asks for Write and Flush.
 type faultyCompressor struct {
 	fw   *flate.Writer
 	dst  io.Writer
@@ -342,12 +344,19 @@ func (c *faultyCompressor) Flush() error {
 		c.dst.Write([]byte{0x00})
 		return err
 	}
-	return c.fw.Flush()
+	return c.fw.Flush() // modes 2 (write error) and 4 (well-behaved, Close-less)
 }
 
+// closingCompressor is the well-behaved control with a Close method.
+type closingCompressor struct{ *faultyCompressor }
+
+func (c closingCompressor) Close() error { return c.fw.Close() }
+
+var compFaultNames = []string{"compressor_flush_without_sync", "compressor_drops_last_byte", "compressor_write_error", "compressor_stray_byte_after_sync", "", ""}
+
 func c12FaultyCompressor(r *eng.Run) {
-	r.SetEntry("wsflate.Writer/faulty-compressor")
-	mode := r.T.Int(sim.LFault, 4)
+	r.SetEntry("wsflate.Writer/custom-compressor")
+	mode := r.T.Int(sim.LFault, 6) // 4: correct without Close, 5: correct with Close
 	msg := drawFlateMsg(r)
 	if len(msg) < 16 {
 		msg = append(msg, patBytes(1, 0, 16)...)
@@ -360,26 +369,74 @@ func c12FaultyCompressor(r *eng.Run) {
 		} else {
 			c.fw, _ = flate.NewWriter(d, 5)
 		}
+		if mode == 5 {
+			c.mode = 4
+			return closingCompressor{c}
+		}
 		return c
 	})
-	r.Fault([]string{"compressor_flush_without_sync", "compressor_drops_last_byte", "compressor_write_error", "compressor_stray_byte_after_sync"}[mode])
+	if compFaultNames[mode] != "" {
+		r.Fault(compFaultNames[mode])
+	} else {
+		r.Res.Nontrivial = true
+	}
+	// History, always within the documented contract ("after all data has
+	// been written client should call Flush()"): Write, Flush [, Close] or
+	// Write, Flush, Write, Flush, Close. Close without a preceding Flush on a
+	// compressor that has no Close method silently drops the unflushed data
+	// on the unchanged tree as well; that usage is outside the contract and
+	// is not generated (DESIGN §8).
+	hist := r.T.Int(sim.LHist, 3)
+	var calls []string
+	allNil := true
+	flushed := true
+	var flushErr error
+	do := func(name string, err error) {
+		calls = append(calls, name+"="+errStr(err))
+		if err != nil {
+			allNil = false
+		}
+	}
+	written := append([]byte(nil), msg...)
 	_, werr := w.Write(msg)
-	ferr := w.Flush()
-	r.Note("C12 faulty compressor mode=%d msg=%d: Write err=%v Flush err=%v", mode, len(msg), werr, ferr)
-	if werr == nil && ferr == nil {
+	do("Write", werr)
+	flushErr = w.Flush()
+	do("Flush", flushErr)
+	switch hist {
+	case 1:
+		do("Close", w.Close())
+	case 2:
+		more := patBytes(9, 0, 1+r.T.Int(sim.LLen, 40000))
+		_, e := w.Write(more)
+		do("Write", e)
+		if e == nil {
+			written = append(written, more...)
+		}
+		e = w.Flush()
+		do("Flush", e)
+		if flushErr == nil {
+			flushErr = e
+		}
+		do("Close", w.Close())
+	}
+	r.Note("C12 custom compressor mode=%d msg=%d history %v", mode, len(msg), calls)
+	if allNil {
 		got, ierr := inflateIndependent(dst.Out)
-		if ierr != nil || !bytes.Equal(got, msg) {
-			r.Failf("corrupt_message_reported_as_success", "compressor fault mode %d: Write and Flush returned nil but the output does not inflate to the message (%v)", mode, ierr)
+		if ierr != nil || !bytes.Equal(got, written) {
+			r.Failf("corrupt_message_reported_as_success", "compressor mode %d: every call returned nil (%v) but the output (+00 00 ff ff) does not inflate to the %d bytes written (%v, got %d bytes)", mode, calls, len(written), ierr, len(got))
 		}
 	}
 	if mode == 2 && werr == nil {
 		r.Failf("compressor_error_swallowed", "compressor Write error was not returned")
 	}
-	if ferr == nil && (mode == 0 || mode == 1 || mode == 3) {
-		r.Failf("bad_tail_not_reported", "compressor fault mode %d (flush without the 00 00 ff ff tail) was reported as success", mode)
+	if flushed && flushErr == nil && (mode == 0 || mode == 1 || mode == 3) {
+		r.Failf("bad_tail_not_reported", "compressor fault mode %d (flush without the 00 00 ff ff tail) was reported as success by Flush", mode)
+	}
+	if (mode == 4 || mode == 5) && !allNil {
+		r.Failf("unexpected_error", "well-behaved compressor (mode %d): %v", mode, calls)
 	}
 	// The error is sticky.
-	if ferr != nil {
+	if flushErr != nil {
 		if _, err := w.Write([]byte("x")); err == nil {
 			r.Failf("error_not_sticky", "wsflate.Writer accepted a Write after a failed Flush")
 		}
